@@ -1,11 +1,24 @@
 /-
   Model/FloatInst.lean — the IEEE-754 instances the driver runs: `Float` (binary64) and
   `Float32` (binary32), with Rust's `FromStr`/`Display` supplied by Model/FloatCodec.lean.
-  Lean's `Float`/`Float32` operations are the C `double`/`float` operations (opaque to the kernel).
+  Lean 4.33's `Float`/`Float32` are structures over the logical model `Float.Model` (Init/Data/Float/Model): `+ - * /`,
+  `sqrt`, `abs`, negation, comparisons, `isNaN`, `ofBits`/`toBits`, `ofNat`/`ofInt`/`ofScientific` and `toUSize` are
+  ordinary definitions that reduce in the kernel and are compiled to the C `double`/`float` operations. The conversions
+  the runtime keeps opaque (`ceil`, `as i32`, `f32 ↔ f64`) are taken from Model/FloatBits.lean instead, so that every
+  field of the instances below except the libm functions of `Trig` is kernel-transparent.
 -/
 import RosuModel.Model.Scalar
 import RosuModel.Model.FloatCodec
+import RosuModel.Model.FloatBits
 namespace Rosu
+
+/-- the conversions Lean keeps opaque, through their bit-level definitions (Model/FloatBits.lean). -/
+def f64Ceil (x : Float) : Float := Float.ofBits (UInt64.ofNat (ceilBits fmt64 x.toBits.toNat))
+def f32Ceil (x : Float32) : Float32 := Float32.ofBits (UInt32.ofNat (ceilBits fmt32 x.toBits.toNat))
+def f64ToI32 (x : Float) : Int := toI32Bits fmt64 x.toBits.toNat
+def f32ToI32 (x : Float32) : Int := toI32Bits fmt32 x.toBits.toNat
+def f32ToF64 (x : Float32) : Float := Float.ofBits (UInt64.ofNat (upBits x.toBits.toNat))
+def f64ToF32 (x : Float) : Float32 := Float32.ofBits (UInt32.ofNat (downBits x.toBits.toNat))
 
 def f64TotalKey (x : Float) : Int :=
   let b := x.toBits.toNat
@@ -24,10 +37,10 @@ instance : Scalar Float where
   isNaN := Float.isNaN
   abs := Float.abs
   sqrt := Float.sqrt
-  ceil := Float.ceil
+  ceil := f64Ceil
   eps := Float.ofBits 0x3CB0000000000000
   ofInt := Float.ofInt
-  toI32 x := x.toInt32.toInt
+  toI32 := f64ToI32
   toUsize x := x.toUSize.toNat
   totalKey := f64TotalKey
   parse s := (parseBits fmt64 s).map fun b => Float.ofBits (UInt64.ofNat b)
@@ -42,10 +55,10 @@ instance : Scalar Float32 where
   isNaN := Float32.isNaN
   abs := Float32.abs
   sqrt := Float32.sqrt
-  ceil := Float32.ceil
+  ceil := f32Ceil
   eps := Float32.ofBits 0x34000000
   ofInt := Float32.ofInt
-  toI32 x := x.toInt32.toInt
+  toI32 := f32ToI32
   toUsize x := x.toUSize.toNat
   totalKey := f32TotalKey
   parse s := (parseBits fmt32 s).map fun b => Float32.ofBits (UInt32.ofNat b)
@@ -59,8 +72,8 @@ instance : Trig Float where
   pi := Float.ofBits 0x400921FB54442D18
 
 instance : Cvt Float32 Float where
-  up := Float32.toFloat
-  down := Float.toFloat32
+  up := f32ToF64
+  down := f64ToF32
 
 def hex64 (x : Float) : String := String.ofList (Nat.toDigits 16 x.toBits.toNat)
 def hex32 (x : Float32) : String := String.ofList (Nat.toDigits 16 x.toBits.toNat)
